@@ -58,8 +58,18 @@ func vPayloadBytes(file []byte) []byte {
 func VerifH_C01_WritersToReaders() {
 	root := vCidID("root")
 	roots := []cid.Cid{root}
-	blocks := []vSection{vValidSection("b1", 1), vValidSection("b2", 1)}
-	vAssume(vImplies(vBytesEq(blocks[0].c.Hash(), blocks[1].c.Hash()), vBytesEq(blocks[0].data, blocks[1].data)))
+	nblk, maxData := 2, 1
+	if vTier() == 1 {
+		nblk, maxData = 3, 2
+	}
+	var blocks []vSection
+	for i := 0; i < nblk; i++ {
+		b := vValidSection("b", maxData)
+		for _, o := range blocks {
+			vAssume(vImplies(vBytesEq(o.c.Hash(), b.c.Hash()), vBytesEq(o.data, b.data)))
+		}
+		blocks = append(blocks, b)
+	}
 	storeID := vBool("storeIdentity")
 	v1 := vBool("writeAsCarV1")
 	opts := []carv2.Option{carv2.StoreIdentityCIDs(storeID), carv2.WriteAsCarV1(v1)}
@@ -154,7 +164,7 @@ func VerifH_C01_WritersToReaders() {
 		got, err := sr.Get(ctx, w.c.KeyString())
 		vAssert("readable-get", err == nil && vBytesEq(got, w.data))
 	}
-	vCover("two-stored", len(want) == 2)
-	vCover("dedup-or-identity-dropped", len(want) < 2)
+	vCover("all-stored", len(want) == nblk)
+	vCover("dedup-or-identity-dropped", len(want) < nblk)
 	vCover("v2-sorted-codec", !v1)
 }
